@@ -1,7 +1,7 @@
 (* C01 - Every pin satisfies every requirement placed on it.  Statements and `exact` only. *)
 From Coq Require Import List String Bool NArith.
 From RC Require Import lib.Pep440 lib.Name model.Merge model.Graph model.Solver model.Check
-                       proofs.MergeP proofs.SolverP proofs.GraphP proofs.CheckP proofs.GraphWF proofs.GraphStable proofs.SolverWF proofs.WitnessSolver proofs.SolverStatements.
+                       proofs.MergeP proofs.SolverP proofs.GraphP proofs.CheckP proofs.GraphWF proofs.GraphStable proofs.SolverWF proofs.WitnessSolver proofs.SolverStatements proofs.PinsP proofs.PinsEx.
 Import ListNotations.
 Open Scope string_scope.
 
@@ -105,3 +105,52 @@ Theorem C01_node_objects_keep_their_project :
   forall id n, alookup id (heap g) = Some n -> exists n', alookup id (heap g') = Some n' /\ nkey n' = nkey n.
 Proof. exact add_dist_wfx. Qed.
 Print Assumptions C01_node_objects_keep_their_project.
+
+(* THE STATEMENT ITSELF, FOR EVERY COMPILE - all universes, inputs, constraint sets (pinned or not, kept or removed),
+   repository stacks, options (--only-binary, --extra, downgrade budget) and walk-back histories, by an invariant on the
+   graph and induction on the fuel (PinsP, 2 700 lines): in the result of a successful compile every requirement line of
+   every project in the graph that applies now - its marker holds under no extra or under an extra some current link
+   requests of the requirer - has a link to the node of the required project, and if that project is solved its version
+   lies inside the line's specifier.  Hypotheses, all decidable (hyps_okb) and true of what the repositories and the
+   command line build: a candidate's distribution carries the name it is listed under, names are PEP 508 names, wildcards
+   only with == / != (cand_ok); inputs and constraint files are requirement files (container_ok). *)
+Theorem C01_every_applicable_requirement_is_satisfied_all_compiles :
+  forall fuel e u inputs cons rc md ob_all ob extras g roots,
+  stack_ok u -> (forall i, In i inputs -> container_ok i) -> (forall cs c, cons = Some cs -> In c cs -> container_ok c) ->
+  perform_compile_stack_x fuel e u inputs cons rc md ob_all ob extras = COk g roots ->
+  pins_sound e g /\ edges_ok_applicable e g /\ pins_ok_live e g.
+Proof.
+  intros fuel e u inputs cons rc md ob_all ob extras g roots Hu Hi Hc H.
+  split; [exact (compile_pins_sound fuel e u inputs cons rc md ob_all ob extras g roots Hu Hi Hc H)|].
+  split; [exact (compile_edges_ok_applicable fuel e u inputs cons rc md ob_all ob extras g roots Hu Hi Hc H)|].
+  exact (compile_pins_ok_live fuel e u inputs cons rc md ob_all ob extras g roots Hu Hi Hc H).
+Qed.
+Print Assumptions C01_every_applicable_requirement_is_satisfied_all_compiles.
+
+(* ... and the same holds of the graph attached to a NoCandidate failure (the graph the failure report is drawn from) *)
+Theorem C01_failure_graph_is_sound_too :
+  forall fuel e u inputs cons rc md ob_all ob extras g nm sp,
+  stack_ok u -> (forall i, In i inputs -> container_ok i) -> (forall cs c, cons = Some cs -> In c cs -> container_ok c) ->
+  perform_compile_stack_x fuel e u inputs cons rc md ob_all ob extras = CNoCand g nm sp -> pins_sound e g /\ edges_ok_applicable e g.
+Proof. exact nocand_pins_sound. Qed.
+Print Assumptions C01_failure_graph_is_sound_too.
+
+(* What is NOT true: (1) the form that reads the reason STORED on a link - a link keeps the reason computed while an extra
+   was requested of the requirer, which can be stronger than anything the requirer still requires (not a violation of the
+   property's wording); (2) the hypothesis on the inputs is needed: when an input is itself a project (`req-compile ./foo
+   reqs.txt`, foo being 1.0) a requirement file's `foo>=2` is ignored and foo==1.0 is the result - known finding
+   C01-project-input-ignores-requirements, replayed on the code. *)
+Theorem C01_refuted_stored_reasons_and_project_inputs :
+  (exists fuel e u inputs g roots, hyps_okb u inputs None = true /\
+     perform_compile_stack_x fuel e u inputs None false None false [] [] = COk g roots /\ ~ edges_ok g) /\
+  (stack_okb [(foo_universe, false)] = true /\ forallb container_okb foo_inputs = false /\
+   pin_of foo_graph "foo" = Some "1.0" /\ ~ edges_ok_applicable w_env foo_graph).
+Proof. split; [exact compile_edges_ok_refuted|exact input_containers_needed]. Qed.
+Print Assumptions C01_refuted_stored_reasons_and_project_inputs.
+
+(* the hypotheses are met by a universe with a walk-back, an extra and a shared dependency, with and without constraint files *)
+Theorem C01_all_compiles_theorem_is_not_vacuous :
+  hyps_okb [(w_universe, false)] w_inputs None = true /\
+  pins_sound w_env w_graph /\ edges_ok_applicable w_env w_graph /\ pins_ok_live w_env w_graph.
+Proof. split; [exact ex1_hypotheses|exact ex1_theorem]. Qed.
+Print Assumptions C01_all_compiles_theorem_is_not_vacuous.
